@@ -161,7 +161,7 @@ What was added for the ones not caught (or caught without an input) at first:
   same tree from two token lists that differ in positions only is shown on the printer's image.
 * C03: the passes of a loop are computed for bodies of text and plain variables; for other bodies they
   are hypotheses of the relational description.
-* C05: interleavings of text with code blocks and directives as one theorem.
+* C05: interleavings of text with code blocks other than `{{ name }}` and with directives as one theorem.
 * C11: numeric conversions against a real-number specification.
 * the evaluator's fuel is a constant (10^5): theorems about whole renders carry a size bound.
 '''
